@@ -202,7 +202,10 @@ RoundTrip(c) == c.pe \/ (c.fin /\ Within(c.v, c.lo, c.hi))
 \* carries an ABSOLUTE rounding error of a few eps * E: monotonicity is therefore stated up
 \* to the bracket lhi = l + 32 eps E (tolerance table: C_LOSS = 32).
 LossBounds(r, st) == st.fin /\ r.zero <= st.l /\ st.l <= r.E
-LossAtRange(r, st) == (st.s = r.range) => st.l = r.E          \* token equality
+\* step = range in the range regime: all the energy, exactly (token equality).  (In the linear
+\* regime -- reachable at step = range only when linear_loss_limit is close to 1 -- the
+\* documented result is step * dE/dx, which LossBounds still confines to [0, E].)
+LossAtRange(r, st) == (st.s = r.range /\ ~st.lin) => st.l = r.E
 LossPairOK(a, b) == a.s <= b.s => a.l <= b.lhi
 \* Named deviation F-LOSS-1: across the hand-over from the linear regime to the range regime
 \* the loss can DROP (the linear approximation overestimates when dE/dx grows with E).
